@@ -104,7 +104,32 @@ def gen_status():
     write("StatusC", body)
 
 
-SECTIONS = {"ladder": gen_ladder, "refs": gen_refs, "status": gen_status}
+def gen_delays():
+    """first elapsed time (whole ms) at which the REAL float comparison `elapsed_seconds > simulated_delay` holds,
+    for every package kind and bet delay 0..12, under the default latencies"""
+    import datetime, types
+    from flumine import config
+    from flumine.order.orderpackage import BaseOrderPackage, OrderPackageType
+    from flumine.clients.clients import ExchangeType
+    client = types.SimpleNamespace(execution=types.SimpleNamespace(EXCHANGE=ExchangeType.SIMULATED))
+    kinds = [("KPlace", OrderPackageType.PLACE), ("KCancel", OrderPackageType.CANCEL), ("KUpdate", OrderPackageType.UPDATE), ("KReplace", OrderPackageType.REPLACE)]
+    rows = []
+    for kn, kt in kinds:
+        for bd in range(0, 13):
+            pkg = BaseOrderPackage(client=client, market_id="1.1", orders=[], package_type=kt, bet_delay=bd)
+            delay = pkg.simulated_delay
+            ms = int(delay * 1000) - 3
+            while not (datetime.timedelta(milliseconds=ms).total_seconds() > delay):
+                ms += 1
+            rows.append("(%s, %s, %s)" % (kn, z(bd), z(ms)))
+    body = "From V Require Import Model.SimLoop.\n"
+    body += "Definition LAT_PLACE := %s.\nDefinition LAT_CANCEL := %s.\nDefinition LAT_UPDATE := %s.\nDefinition LAT_REPLACE := %s.\n" % tuple(
+        z(to_int(getattr(config, k), 1000)) for k in ("place_latency", "cancel_latency", "update_latency", "replace_latency"))
+    body += "Definition DELAY_TABLE : list (pkind * Z * Z) := [%s].\n" % "; ".join(rows)
+    write("DelayC", body)
+
+
+SECTIONS = {"ladder": gen_ladder, "refs": gen_refs, "status": gen_status, "delays": gen_delays}
 
 if __name__ == "__main__":
     which = sys.argv[1:] or sorted(SECTIONS)
